@@ -197,6 +197,22 @@ func run(r *simkit.Run) {
 		return
 	}
 
+	if prof == "pool" && c.Bool(60, "tall-chain") {
+		// templates at heights whose serialized number needs a sign pad
+		// byte (128..255) or a second byte
+		n := 124 + c.Intn(8, "tall-n")
+		s.quiet = true
+		for i := 0; i < n; i++ {
+			b := w.Build(n0tip(s), BlockOpts{})
+			s.ensureClock(b)
+			s.Deliver(b)
+		}
+		s.quiet = false
+		s.CheckState("tall-chain")
+		r.Probe("tall-chain")
+		r.Sig("tall")
+	}
+
 	// profile weights
 	pMut, pLimit, pOOO := 120, 80, 150 // permille: invalid mutant, at-limit variant, out-of-order delivery
 	maxTx := 3
@@ -704,6 +720,8 @@ func run(r *simkit.Run) {
 	r.Count("reorgs", s.reorgs)
 	r.Count("invalid_blocks_judged", s.judgedInv)
 }
+
+func n0tip(s *Sim) *MBlock { return s.n.Tip() }
 
 // pickBest is the best fully valid model block.
 func (s *Sim) pickBest() *MBlock {
